@@ -115,7 +115,8 @@ def gen_engine(rng, profile="algebraic", activations=("General",), weighted=Fals
                         formula = f" {rng.choice(['+', '-', '*'])} ".join(f"({q})" if rng.random() < 0.5 else q for q in parts) + rng.choice(["", " + 0.75", " - 1"])
                         terms.append({"name": f"o{i}{k}", "class": "Function", "params": {"formula": formula}})
             elif kind == "monotonic":
-                terms = [gen_term(rng, f"o{i}{k}", lo, hi, ["Ramp", "SShape", "ZShape"] + (["Sigmoid"] if profile != "algebraic" else [])) for k in range(rng.choice([2, 3]))]
+                # Concave and Sigmoid have tsukamoto(0) = +-inf: a rule that fires with degree exactly 0 must still contribute nothing
+                terms = [gen_term(rng, f"o{i}{k}", lo, hi, ["Ramp", "SShape", "ZShape", "Concave", "Concave"] + (["Sigmoid", "Sigmoid"] if profile != "algebraic" else [])) for k in range(rng.choice([2, 3]))]
             else:  # both kinds in one variable: which one fires depends on the step (type inference must be per call)
                 terms = [{"name": f"o{i}0", "class": "Constant", "params": {"value": round(rng.uniform(lo, hi), 1)}},
                          gen_term(rng, f"o{i}1", lo, hi, ["Ramp", "SShape", "ZShape"]),
